@@ -37,7 +37,8 @@ RULE = ("for each of ADWIN, ADWINAccuracy, CUSUM, PageHinkley, DDM, EDDM, STEPD,
         "one malformed call of each applicable kind (rows, width, renamed, multicol, ymulti) in varying containers at every "
         "position of the history (PCACD: a subset in the quick tier) incl. right after a drift; container-plan pairs on the same "
         "values; np.random.seed(f(case, number of accepted calls)) before every call. Non-trivial: the injected call is refused "
-        "(inject) / the two plans differ and everything is accepted (mix).")
+        "(inject) / the two plans differ and everything is accepted (mix)."
+        " Also: PCACD with online_scaling=False.")
 SHARD = 300
 
 POOL = ["a", "b", "c", "d", "e", "f", "y", "z"]
